@@ -25,6 +25,9 @@ type c03Case struct {
 	// MidCtl: at MidCtl/16 of the run every level is reset through its control
 	// port while traffic is in flight (the paths that walk transaction maps).
 	MidReset int `json:"mid_reset"`
+	// EndSteps: control requests issued one at a time after the workload
+	// (Drain + address-filtered Flush of every write-back cache).
+	EndSteps []memsys.CtlStep `json:"end_steps"`
 }
 
 type msgRec struct {
@@ -64,6 +67,11 @@ func runFingerprint(c c03Case) fingerprint {
 	}
 	a.Kick()
 	_ = engine.Run()
+	if len(c.EndSteps) > 0 {
+		a.Ctl.State.Steps = append(a.Ctl.State.Steps, c.EndSteps...)
+		a.Ctl.TickLater()
+		_ = engine.Run()
+	}
 	eh := sha256.New()
 	var lines []string
 	for _, e := range rec.Events {
@@ -129,7 +137,31 @@ func TestC03Hierarchy(t *testing.T) {
 		if rapid.Bool().Draw(rt, "pt") {
 			spec.PTLog2, spec.PTPages = 12, rapid.IntRange(0, 6).Draw(rt, "ptPages")
 		}
-		run(rt, c03Case{Spec: spec})
+		c := c03Case{Spec: spec}
+		// after the workload: drain every write-back cache and flush it with an
+		// address filter naming several (written) lines - the control paths that
+		// walk directories and transaction tables
+		var written []uint64
+		for _, d := range spec.Drivers {
+			for _, op := range d.Script {
+				if op.Write {
+					written = append(written, op.Addr)
+				}
+			}
+		}
+		for i, l := range spec.Levels {
+			if l.Kind != "wb" || len(written) == 0 || !rapid.Bool().Draw(rt, "endFlush") {
+				continue
+			}
+			target := fmt.Sprintf("L%d.Control", i)
+			n := rapid.IntRange(1, 6).Draw(rt, "nFlushAddr")
+			var addrs []uint64
+			for k := 0; k < n; k++ {
+				addrs = append(addrs, written[rapid.IntRange(0, len(written)-1).Draw(rt, "flushAddr")])
+			}
+			c.EndSteps = append(c.EndSteps, memsys.CtlStep{Target: target, Cmd: 1}, memsys.CtlStep{Target: target, Cmd: 5, Addresses: addrs})
+		}
+		run(rt, c)
 	})
 }
 
@@ -210,7 +242,7 @@ func runC03(s *kit.Session, f kit.Failer, t testing.TB, c c03Case) {
 	defer os.RemoveAll(dir)
 	var res [2]memsys.Result
 	for i := 0; i < 2; i++ {
-		r, err := memsys.RunChild(memsys.Job{Spec: c.Spec, NoTraceHooks: true, Dir: filepath.Join(dir, fmt.Sprint("p", i)), BuildID: "verif-c03",
+		r, err := memsys.RunChild(memsys.Job{Spec: c.Spec, EndSteps: c.EndSteps, NoTraceHooks: true, Dir: filepath.Join(dir, fmt.Sprint("p", i)), BuildID: "verif-c03",
 			SaveFinal: filepath.Join(dir, fmt.Sprint("final", i, ".tar.gz"))})
 		if err != nil {
 			s.Fail(f, c, "harness-child", "%v", err)
@@ -233,7 +265,7 @@ func runC03(s *kit.Session, f kit.Failer, t testing.TB, c c03Case) {
 	}
 	// two traced (default registration: idle DBTracer hook on every
 	// component) simulations one after the other in ONE fresh process
-	rr, err := memsys.RunChild(memsys.Job{Spec: c.Spec, NoTraceHooks: false, Dir: filepath.Join(dir, "rep"), BuildID: "verif-c03", Repeat: 2})
+	rr, err := memsys.RunChild(memsys.Job{Spec: c.Spec, EndSteps: c.EndSteps, NoTraceHooks: false, Dir: filepath.Join(dir, "rep"), BuildID: "verif-c03", Repeat: 2})
 	if err != nil {
 		s.Fail(f, c, "harness-child", "%v", err)
 		return
